@@ -51,3 +51,30 @@ Definition py_items (v : pyval) : res :=
 (* a set represented by the list of its elements (membership is all that may be asked of it): union is concatenation *)
 Definition py_set_union (a b : pyval) : res :=
   match a, b with VList x, VList y => Normal (VList (x ++ y)) | _, _ => Exc TypeError end.
+
+(* ---- for SensitiveWordAnonymizer.__init__: sets as duplicate-free lists, sorted(key=(-len, text)), substring test ---- *)
+Definition py_dedup (v : pyval) : res :=
+  match v with VList l => Normal (VList (fold_left (fun acc w => if existsb (veq w) acc then acc else acc ++ [w])%list l [])) | _ => Exc TypeError end.
+Fixpoint z_ltb (a b : list Z) : bool :=
+  match a, b with
+  | _, [] => false
+  | [], _ :: _ => true
+  | x :: a', y :: b' => if x <? y then true else if y <? x then false else z_ltb a' b'
+  end.
+Definition z_before (a b : list Z) : bool :=
+  if Nat.ltb (List.length b) (List.length a) then true else if Nat.ltb (List.length a) (List.length b) then false else z_ltb a b.
+Fixpoint z_insert (w : list Z) (l : list (list Z)) : list (list Z) :=
+  match l with [] => [w] | x :: r => if z_before w x then w :: l else x :: z_insert w r end.
+Fixpoint strs_of (l : list pyval) : option (list (list Z)) :=
+  match l with [] => Some [] | VStr s :: r => match strs_of r with Some t => Some (s :: t) | None => None end | _ => None end.
+(* sorted(xs, key=lambda w: (-len(w), w)) for a list of strings: longest first, equal lengths in code-point order (stable sort of equal keys is moot: equal
+   keys are equal strings) *)
+Definition py_sorted_lenlex (v : pyval) : res :=
+  match v with
+  | VList l => match strs_of l with Some ss => Normal (VList (map VStr (fold_left (fun acc w => z_insert w acc) ss []))) | None => Exc TypeError end
+  | _ => Exc TypeError end.
+Fixpoint z_contains_aux (fuel : nat) (p s : list Z) : bool :=
+  match fuel with O => false | S f => zprefix p s || match s with [] => false | _ :: r => z_contains_aux f p r end end.
+(* x in c: substring test on two strings, otherwise membership *)
+Definition py_in2 (x c : pyval) : res :=
+  match x, c with VStr p, VStr s => Normal (VBool (z_contains_aux (S (List.length s)) p s)) | _, _ => py_in x c end.
